@@ -103,6 +103,25 @@ observe_vgroup(int g, const char *where)
                 bad = 1;
             }
         }
+        /* asked for more members than there are (a caller's fixed-size arrays) or for fewer: the call delivers min(n, members)
+           pairs and leaves the rest of the arrays alone */
+        static const int DELTA[3] = {1, 8, -1};
+        for (int q = 0; q < 3 && !bad; q++) {
+            int ask = v->nm + DELTA[q], exp = ask < v->nm ? ask : v->nm;
+            if (ask <= 0)
+                continue;
+            for (int i = 0; i < v->nm + 8; i++)
+                tags[i] = refs[i] = -77;
+            int32 r2 = Vgettagrefs(id, tags, refs, ask);
+            int   ok = r2 == exp;
+            for (int i = 0; i < v->nm + 8 && ok; i++)
+                ok = i < exp ? (tags[i] == v->tag[i] && refs[i] == v->mref[i]) : (tags[i] == -77 && refs[i] == -77);
+            if (!ok) {
+                mc_violation("gettagrefs:other-count", "%s: vgroup %d with %d members: Vgettagrefs asked for %d returns %d, or delivers other pairs than the first %d members / writes beyond them",
+                             where, g, v->nm, ask, (int)r2, exp);
+                bad = 1;
+            }
+        }
         /* spot: first, last, around 63/64 by index */
         int idx[5] = {0, v->nm - 1, 63, 64, v->nm / 2};
         for (int k = 0; k < 5 && !bad; k++) {
